@@ -47,6 +47,7 @@ let () =
         | ["L"; n] -> ops := BAddCL (n_of_decstr n) :: !ops
         | ["V"] -> ops := BServer :: !ops
         | ["H"] -> ops := BContentHttp :: !ops
+        | ["Q"] -> ()          (* is_valid() asked in between: a query, no effect on the message *)
         | _ -> failwith "bop") (split_on ';' s);
     (!h0, List.rev !ops) in
   reg "reqops" (fun a -> match a with [m; u; ma; mi; ops; n] ->
